@@ -176,6 +176,12 @@ def gen_history(rng, allow_unclean):
         # the same note edited on two later days (first stamp inserts the date, the second replaces it)
         j = rng.randint(0, 1)
         ops += [["reindex", None], ["nextday"], ["editnote", 1, j], ["reindex", None], ["nextday"], ["editnote", 1, j]]
+    if allow_unclean and rng.random() < 0.6 and len(live) >= 2:
+        # an explicit-path reindex that is NOT followed by a write-back (the edited note was already stamped today):
+        # the hash map then holds only the given page, and the plain reindex meets the other pages as "new"
+        a = min(live)
+        j = rng.randint(0, 1)
+        ops += [["reindex", None], ["editnote", a, j], ["reindex", None], ["editnote", a, j], ["reindex", [[a]]]]
     ops.append(["reindex", None])
     return init, ops
 
@@ -240,8 +246,12 @@ def run_history(eng, rng, oc, allow_unclean):
                     qdiff = q
                     break
         if final_idx != fresh_idx or qdiff:
+            # a known finding explains the difference only when the implementation followed the world machine (which
+            # reproduces both known findings) at every index command of the history
             trig = None
-            if any(o[0] in ("delete", "rename") for o in ops):
+            if mismatch:
+                trig = None
+            elif any(o[0] in ("delete", "rename") for o in ops):
                 trig = "deleted_page_survives"
             elif any(o[0] == "reindex" and o[1] for o in ops):
                 trig = "explicit_path_reindex"
@@ -274,6 +284,7 @@ def witness(eng, oc):
                 oc.known_hit[trig] = o2.known_hit[trig]
             if o2.corr_mismatch:
                 oc.corr_mismatch.extend(o2.corr_mismatch)
+            oc.spec_fail.extend(f for f in o2.spec_fail if f[3] is None)
             oc.evaluations += o2.evaluations
         finally:
             globals()["gen_history"] = saved
@@ -282,7 +293,7 @@ def witness(eng, oc):
 def run(oc, tier, seed):
     rng = random.Random(seed)
     eng = lib.Engine()
-    n = 10 if tier == "quick" else 200
+    n = 12 if tier == "quick" else 200
     oc.rule = ("histories of 4-8 steps over 2-3 pages (edit a note, add / delete a note, edit the header, add a page, next day, "
                "plain reindex; every third history also explicit-path reindex, delete and rename), always ending with a plain "
                "reindex; after every index command the per-page observation (file exists, stored hash current/stale/none, "
